@@ -83,6 +83,8 @@ func classify(err error) string {
 		return "err:hash-mismatch"
 	case strings.Contains(m, "MerkleRoot mismatch"):
 		return "err:merkle"
+	case strings.HasPrefix(m, "invalid block: duplicate transaction"):
+		return "err:dup"
 	case strings.Contains(m, "PrevStateRoot mismatch"), strings.Contains(m, "onPersist failed"), strings.Contains(m, "postPersist failed"),
 		strings.Contains(m, "failed to persist"), strings.Contains(m, "MPT"), strings.Contains(m, "failed to store"):
 		return "err:store"
@@ -151,15 +153,15 @@ func b01(x bool) int {
 }
 
 type vector struct {
-	idxRel             int // -1 older, 0 next, +1 future (vs block height+1)
-	srFlagOK           bool
-	prev               *hdrInfo // header the candidate names as previous, if known to the node
-	signed             bool     // strictSigned against prev.nc (false if prev unknown)
-	merkleOK           bool
-	cmroot             util.Uint256 // Merkle root computed by the harness over the received tx list
-	txs                []txDesc
-	newRoot            util.Uint256 // state root this block produces, when the harness knows it (else zero)
-	storeOK            bool         // execution of the block (storeBlock's persist scripts) can succeed
+	idxRel   int // -1 older, 0 next, +1 future (vs block height+1)
+	srFlagOK bool
+	prev     *hdrInfo // header the candidate names as previous, if known to the node
+	signed   bool     // strictSigned against prev.nc (false if prev unknown)
+	merkleOK bool
+	cmroot   util.Uint256 // Merkle root computed by the harness over the received tx list
+	txs      []txDesc
+	newRoot  util.Uint256 // state root this block produces, when the harness knows it (else zero)
+	storeOK  bool         // execution of the block (storeBlock's persist scripts) can succeed
 }
 
 func (st *state) lookup(known []hdrInfo, h util.Uint256) *hdrInfo {
@@ -265,9 +267,10 @@ func main() {
 		maxK = f.Cases
 		nStates = (maxK + slots - 1) / slots
 	}
-	for si := 0; si < nStates; si++ {
-		if f.Only >= 0 && f.Only/slots != si {
-			continue
+	states := map[int]*state{}
+	getState := func(si int) *state {
+		if st, ok := states[si]; ok {
+			return st
 		}
 		var spec stateSpec
 		sr := prng.ForCase(f.Seed^0x5eed5eed, si)
@@ -280,9 +283,40 @@ func main() {
 		o.Count(fmt.Sprintf("state:ahead=%d", spec.ahead))
 		o.Count(fmt.Sprintf("state:pool=%d", spec.poolMode))
 		o.Count(fmt.Sprintf("state:%s", spec.k))
+		states[si] = st
+		return st
+	}
+	done := map[int]bool{}
+	// corpus: the replays of the four defects this check found (fixed since), run first
+	for _, cp := range corpus {
+		if cp.state >= nStates || f.Only >= 0 && f.Only/slots != cp.state {
+			continue
+		}
+		st := getState(cp.state)
+		base := cp.state * slots
+		names := corruptions(st, prng.ForCase(f.Seed, base))
+		for ci := range names {
+			if names[ci].name != cp.name {
+				continue
+			}
+			k := base + ci
+			if k < maxK && f.Want(k) && !done[k] {
+				r := prng.ForCase(f.Seed, k)
+				cs := corruptions(st, r)
+				runCase(o, k, st, &cs[ci], r)
+				o.Count("corpus")
+				done[k] = true
+			}
+		}
+	}
+	for si := 0; si < nStates; si++ {
+		if f.Only >= 0 && f.Only/slots != si {
+			continue
+		}
+		st := getState(si)
 		for ci := 0; ci < slots; ci++ {
 			k := si*slots + ci
-			if k >= maxK || !f.Want(k) {
+			if k >= maxK || !f.Want(k) || done[k] {
 				continue
 			}
 			r := prng.ForCase(f.Seed, k)
@@ -292,7 +326,23 @@ func main() {
 			}
 			runCase(o, k, st, &cs[ci], r)
 		}
+		if si >= len(quickStates) {
+			delete(states, si)
+		}
 	}
+}
+
+// corpus names (state of quickStates, corruption) pairs that once were accepted by the real node.
+var corpus = []struct {
+	state int
+	name  string
+}{
+	{1, "inv-bitflip-sig"},                            // header known ahead, corrupted block witness (d99d969)
+	{1, "witness-empty"},                              //
+	{1, "tx-witness-bitflip-first"},                   // tx pooled, block copy with corrupted witness (ec0103c)
+	{0, "inblock-conflict-after-higher-fee+resigned"}, // [t1,t2], t2.Conflicts={t1} (d0c3ec8)
+	{0, "inblock-conflict-before-lower-fee+resigned"},
+	{6, "dup-last"}, // [a,b,c,c] with the hash of [a,b,c], VerifyTransactions off (ab64b57)
 }
 
 func hdrLine(h hdrInfo) string {
@@ -400,7 +450,15 @@ func runCase(o *hx.Out, k int, st *state, cd *cand, r *prng.R) {
 	}
 	o.Line("bal "+strings.Join(bl, " "), "ok")
 	s0 := c.snapshot()
-	o.Line("pool "+poolIDs(s0.pool), "ok")
+	var pt []string
+	for _, t := range c.bc.GetMemPool().GetVerifiedTransactions() {
+		pt = append(pt, txKey(t))
+	}
+	sort.Strings(pt)
+	if len(pt) == 0 {
+		pt = []string{"-"}
+	}
+	o.Line("pool "+strings.Join(pt, ","), "ok")
 	if s0.bh != st.h || s0.root != st.roots[st.h] || s0.hh != st.h+uint32(spec.ahead) {
 		panic("replica is not in the described state")
 	}
@@ -449,13 +507,13 @@ func runCase(o *hx.Out, k int, st *state, cd *cand, r *prng.R) {
 			o.Count("accepted")
 			if !spec.k.skip {
 				conj := map[string]bool{
-					"next-index":      b.Index == st.h+1,
-					"prev-hash":       b.PrevHash == tipInfo.hash,
-					"later-timestamp": b.Timestamp > tipInfo.ts,
-					"merkle-root":     v.merkleOK,
+					"next-index":               b.Index == st.h+1,
+					"prev-hash":                b.PrevHash == tipInfo.hash,
+					"later-timestamp":          b.Timestamp > tipInfo.ts,
+					"merkle-root":              v.merkleOK,
 					"signed-by-next-consensus": strictSigned(st.v, tipInfo.nc, &b.Header),
-					"prev-state-root": !spec.k.sr || b.PrevStateRoot == st.roots[st.h],
-					"stateroot-flag":  v.srFlagOK,
+					"prev-state-root":          !spec.k.sr || b.PrevStateRoot == st.roots[st.h],
+					"stateroot-flag":           v.srFlagOK,
 				}
 				names := make([]string, 0, len(conj))
 				for n := range conj {
@@ -522,7 +580,17 @@ func runCase(o *hx.Out, k int, st *state, cd *cand, r *prng.R) {
 				} else if identical && sameHashes(after.pool, st.refPool) && after.dbDigest != st.refDigest {
 					fail("nondeterministic-db", "same block, same state, different database digest %s vs %s", after.dbDigest, st.refDigest)
 				}
-				if sameList && !sameHashes(after.pool, st.refPool) {
+				stays := false
+				for _, t := range b.Transactions {
+					for _, ph := range after.pool {
+						if ph == t.Hash() {
+							stays = true
+							fail("accepted-tx-stays-pooled", "transaction %s is on chain now (block accepted) and still in the mempool: %s (VerifyTransactions=%v)",
+								short(ph), poolIDs(after.pool), spec.k.vt)
+						}
+					}
+				}
+				if sameList && !stays && !sameHashes(after.pool, st.refPool) {
 					fail("pool-differs-after-accept", "mempool after the block: %s, on the reference replica: %s", poolIDs(after.pool), poolIDs(st.refPool))
 				}
 			}
